@@ -1,0 +1,58 @@
+//go:build verif
+
+package bed
+
+// Contracts for the deductive verifier in /verif (govc). This file is only
+// compiled with -tags verif; it adds no behaviour to the package.
+
+// Package-level error values are created once by errors.New and never reassigned.
+//@ global ErrBadBedType != nil && ErrBadStrandField != nil && ErrBadStrand != nil && ErrBadColorField != nil && ErrMissingBlockValues != nil && ErrNoChromField != nil
+//@ global typeis(ErrBadBedType, *errors.errorString) && typeis(ErrBadStrandField, *errors.errorString) && typeis(ErrBadStrand, *errors.errorString) && typeis(ErrBadColorField, *errors.errorString) && typeis(ErrMissingBlockValues, *errors.errorString) && typeis(ErrNoChromField, *errors.errorString)
+
+//@ func unsafeString
+//@   trusted
+//@   pure
+//@   ensures len(result) == len(b) && forall i int :: 0 <= i && i < len(b) ==> result[i] == b[i]
+
+// handlePanic turns error-valued panics into a returned error and re-raises everything else.
+//@ func handlePanic
+//@   property C03
+//@   recovers
+//@   requires err != nil
+//@   panics   recovered() != nil && (!implements(recovered(), error) || implements(recovered(), runtime.Error))
+//@   ensures  recovered() == nil ==> *err == old(*err)
+//@   ensures  recovered() != nil ==> *err == recovered()
+//@   assigns  *err
+
+//@ func mustAtoa
+//@   property C03
+//@   throws
+//@   assigns fresh
+//@   ensures len(result) >= 0
+//@   loop 1 invariant 0 <= idx && idx <= len(c) && len(a) == len(c)
+
+//@ func parseBed3
+//@   property C03
+//@   ensures [value-or-error] b != nil || err != nil
+//@   ensures [error-ptr] err != nil && typeis(err, *csv.ParseError) ==> ref(err) != 0
+//@ func parseBed4
+//@   property C03
+//@   ensures [value-or-error] b != nil || err != nil
+//@   ensures [error-ptr] err != nil && typeis(err, *csv.ParseError) ==> ref(err) != 0
+//@ func parseBed5
+//@   property C03
+//@   ensures [value-or-error] b != nil || err != nil
+//@   ensures [error-ptr] err != nil && typeis(err, *csv.ParseError) ==> ref(err) != 0
+//@ func parseBed6
+//@   property C03
+//@   ensures [value-or-error] b != nil || err != nil
+//@   ensures [error-ptr] err != nil && typeis(err, *csv.ParseError) ==> ref(err) != 0
+//@ func parseBed12
+//@   property C03
+//@   ensures [value-or-error] b != nil || err != nil
+//@   ensures [error-ptr] err != nil && typeis(err, *csv.ParseError) ==> ref(err) != 0
+
+//@ func (*Reader).Read
+//@   property C03
+//@   requires r != nil && r.r != nil
+//@   ensures [value-or-error] (f != nil && ref(f) != 0) || err != nil
